@@ -12,7 +12,8 @@
 //!
 //! input : {"script","peers","init","services","ops","particle_id","children":N,
 //!          "bogus": [[after_op_index, peer, k], ...]          k unprocessed results handed to `peer`
-//!          "tamper": [[after_op_index, kind, seed], ...]      kind in swap_sigs|drop_sigs|bad_values
+//!          "tamper": [[after_op_index, kind, seed], ...]      kind in swap_sigs|drop_sigs|bad_values|two_bad_keys|dangling_refs|fork_data
+//!          "services_fork": table | null                       second world for fork_data (same peers sign other results)
 //!          "map_kvs": [[key, value] ...] | null                key/value pairs of the canon map probe
 //!          "expect": "canon-map-colliding-keys" | null}
 //! output: {"runs", "executions", "classes", "info", "oracle_failures", "coq"}
@@ -136,6 +137,23 @@ fn tamper(kind: &str, bytes: &[u8], seed: u64) -> Option<Vec<u8>> {
             }
             d = serde_json::from_value(j).ok()?;
         }
+        // two malformed public keys among the signatures: DataVerifier::new names the first one it meets
+        "two_bad_keys" => {
+            let sig = d.signatures.iter().map(|(_, s)| s.clone()).next()?;
+            for name in ["badkeyA", "badkeyB", "badkeyC"] {
+                let pk: PublicKey = serde_json::from_str(&format!("\"{}{}\"", name, seed % 7)).ok()?;
+                d.signatures.put(pk, sig.clone());
+            }
+        }
+        // the tetraplet store emptied: every service result / canon aggregate has a dangling reference
+        "dangling_refs" => {
+            let mut j = serde_json::to_value(&d).ok()?;
+            let ci = j.get_mut("cid_info")?;
+            let n = ci.get("service_result_store")?.as_object()?.len() + ci.get("canon_element_store")?.as_object()?.len();
+            if n < 2 { return None; }
+            *ci.get_mut("tetraplet_store")? = json!({});
+            d = serde_json::from_value(j).ok()?;
+        }
         _ => return None,
     }
     reencode(bytes, &d)
@@ -209,7 +227,13 @@ fn classify(case: &J, rec: &Rec, a: &J, b: &J, how: &str) -> J {
         // property text: "same result code and message" -- the 30000 text is Debug of a HashMap
         key = "unprocessed-results-message-order";
     } else if what == vec!["msg"] && code == codeb && rec.kind.starts_with("tamper:") && (1..10000).contains(&code) {
-        key = "preparation-error-names-first-culprit";
+        // which culprit a preparation error names.  DataVerifier::verify and CidStore::verify* visit their maps in key order
+        // since the fix; the sites that still walk a HashMap are recognised by their error text
+        let (ma, mb) = (a["msg"].as_str().unwrap_or(""), b["msg"].as_str().unwrap_or(""));
+        let uncovered = ["malformed key:", "inconsistent CID multisets on merge for peer", "Reference CID "];
+        if uncovered.iter().any(|p| ma.starts_with(p) && mb.starts_with(p)) {
+            key = "preparation-error-first-culprit-uncovered-sites";
+        }
     } else if case["expect"].as_str() == Some("canon-map-colliding-keys") {
         // the JSON rendering of a canon map whose keys 42 and "42" collide: the call arguments may differ
         // only below numeric-looking keys; everything else of the same run must agree; later runs may
@@ -266,6 +290,12 @@ fn main() {
         let init = case["init"].as_u64().unwrap_or(0) as usize;
         let ops = ops_from_json(&case["ops"]);
         let mut net = Net::new(&script, &peers, init, services, case["particle_id"].as_str().unwrap_or("particle-1"));
+        // a second world: same script, peers, keys, particle id and schedule, other service results (the same peers sign
+        // diverging results); its data delivered into the first world gives DataVerifier::merge several inconsistent peers
+        let mut net2: Option<Net> = if case["services_fork"].is_array() {
+            let sj = Net::instantiate(&case["services_fork"].to_string(), &peers);
+            Some(Net::new(&script, &peers, init, Services::from_json(&serde_json::from_str(&sj).unwrap_or(J::Null)), case["particle_id"].as_str().unwrap_or("particle-1")))
+        } else { None };
         let bogus: Vec<(usize, usize, usize)> = case["bogus"].as_array().map(|a| a.iter().map(|e| (e[0].as_u64().unwrap_or(0) as usize, e[1].as_u64().unwrap_or(0) as usize, e[2].as_u64().unwrap_or(2) as usize)).collect()).unwrap_or_default();
         let tampers: Vec<(usize, String, u64)> = case["tamper"].as_array().map(|a| a.iter().map(|e| (e[0].as_u64().unwrap_or(0) as usize, e[1].as_str().unwrap_or("").to_string(), e[2].as_u64().unwrap_or(0))).collect()).unwrap_or_default();
         for (opi, op) in ops.iter().enumerate() {
@@ -273,6 +303,7 @@ fn main() {
                 let first = observe(&rec.out);
                 recs.push(Rec { case: ci, step: rec.step, kind: "run".into(), input: rec.input, first });
             }
+            if let Some(n2) = net2.as_mut() { let _ = n2.exec(op); }
             for (at, p, k) in bogus.iter() {
                 if *at != opi { continue; }
                 // results under ids nobody asked for: they stay unprocessed (code 30000)
@@ -289,7 +320,20 @@ fn main() {
                 net.step += 1;
             }
             for (at, kind, seed) in tampers.iter() {
-                if *at != opi || net.inflight.is_empty() { continue; }
+                if *at != opi || kind != "fork_data" { continue; }
+                if let Some(n2) = net2.as_ref() {
+                    let h = (*seed as usize) % n2.hosts.len();
+                    let p = ((*seed as usize) / 7) % net.hosts.len();
+                    if n2.hosts[h].prev.is_empty() || net.hosts[p].prev.is_empty() { continue; }
+                    let input = net.make_input(p, n2.hosts[h].prev.clone(), BTreeMap::new());
+                    let out = run(&input);
+                    let first = observe(&out);
+                    recs.push(Rec { case: ci, step: net.step, kind: "tamper:fork_data".into(), input, first });
+                    net.step += 1;
+                }
+            }
+            for (at, kind, seed) in tampers.iter() {
+                if *at != opi || net.inflight.is_empty() || kind == "fork_data" { continue; }
                 let m = net.inflight[(*seed as usize) % net.inflight.len()].clone();
                 if let Some(bad) = tamper(kind, &m.data, *seed) {
                     let input = net.make_input(m.to, bad, BTreeMap::new());
